@@ -8,7 +8,9 @@ from props import util
 from props.C08 import asset_steps
 
 THEOREMS = ['C06_min_runtime_exact', 'C06_min_downtime_exact', 'C06_capacity_when_on_off', 'C06_ramp_between_steps', 'C06_first_step_ramp',
-            'C06_start_flags', 'C06_heat_share', 'C06_fuel_balance', 'C06_plant_downtime_rows_exact', 'C06_plant_runtime_rows_sound']
+            'C06_start_flags', 'C06_heat_share', 'C06_fuel_balance', 'C06_plant_downtime_rows_exact', 'C06_plant_runtime_rows_sound',
+            'C06_cap_row_shape', 'C06_capacity_outside_profiles', 'C06_start_profile_bounds', 'C06_shutdown_profile_bounds',
+            'C06_start_shutdown_flags_exact']
 CFG = {'freqs': ['h', 'h', '2h'], 'units': ['h'], 'tzs': [None], 'T': (4, 8), 'p_unaligned_end': 0.0, 'p_inflow': 0.0}
 
 
@@ -51,7 +53,7 @@ def unit_oracle(ctx, sp, o):
     if not steps:
         return
     dt = {t: (pts[t + 1] - pts[t]) / us for t in steps}
-    chp = a['kind'] == 'CHPAsset'
+    chp = a['kind'] == 'CHPAsset' and not a.get('_no_heat')
     power = a['nodes'][0]
     heat = a['nodes'][1] if chp else None
     fuel = a['nodes'][-1] if len(a['nodes']) > (2 if chp else 1) else None
@@ -216,7 +218,7 @@ def pattern_oracle(ctx, sp, o):
 
 
 def run(ctx):
-    if not ctx.proof_gate(THEOREMS, ['PlantProofs.vo', 'Plant.vo', 'PlantRows.vo']):
+    if not ctx.proof_gate(THEOREMS, ['PlantProofs.vo', 'Plant.vo', 'PlantRows.vo', 'PlantProfiles.vo']):
         return
     n = 60 if ctx.tier == 'quick' else 400
     specs = util.corpus(ctx.prop) + gen.gen_many_plants(ctx.seed, n, CFG, 'c06_')
@@ -226,6 +228,11 @@ def run(ctx):
         if i % 2:
             sp['opts']['warmup'] = 'setup'
     specs += prof
+    # a CHP asset declared without heat node (the form Plant uses internally)
+    for sp in specs:
+        a = [x for x in sp['assets'] if x['kind'] in ('Plant', 'CHPAsset')]
+        if a and a[0]['kind'] == 'Plant' and sp['id'].startswith('c06') and int(sp['id'].split('_')[-1]) % 4 == 1:
+            a[0]['kind'], a[0]['_no_heat'] = 'CHPAsset', True
     # horizons shorter than what is left of the minimum run time / down time
     short = gen.gen_many_plants(ctx.seed, n // 4, dict(CFG, T=(2, 3), freqs=['h']), 'c06s_')
     for sp in short:
@@ -248,7 +255,7 @@ def run(ctx):
             continue
         ctx.count('solve:' + str(o.get('solve')))
         a = [x for x in sp['assets'] if x['kind'] in ('Plant', 'CHPAsset')][0]
-        ctx.count('kind:' + a['kind'] + ('+fuel' if len(a['nodes']) > (2 if a['kind'] == 'CHPAsset' else 1) else ''))
+        ctx.count('kind:' + a['kind'] + ('+fuel' if len(a['nodes']) > (2 if (a['kind'] == 'CHPAsset' and not a.get('_no_heat')) else 1) else '') + (' (_no_heat)' if a.get('_no_heat') else ''))
         for k in ('ramp', 'min_runtime', 'min_downtime', 'start_costs', 'start_fuel', 'consumption_if_on', 'max_share_heat', 'time_already_running', 'start_ramp_lower_bounds', 'shutdown_ramp_lower_bounds'):
             if a.get(k):
                 ctx.count('feature:' + k)
